@@ -438,7 +438,7 @@ bool Session::sequence_check(const unsigned seqnum, const Message *msg)
 		{
 			slout_warn << "Resend request already sent";
 		}
-		if (_state == States::st_continuous)
+		else if (_state == States::st_continuous || _state == States::st_test_request_sent)
 		{
 			send(generate_resend_request(_next_receive_seq));
 			do_state_change(States::st_resend_request_sent);
